@@ -28,7 +28,10 @@ C10_SCALARS = ['int', 'float', 'str', 'bool', 'none', 'Fraction', 'Decimal', 'da
 
 HANDLER_SPECS = [None, None, None, ['one', 'dbl_int'], ['one', 'upper_str'], ['seq', 'dbl_int', 'upper_str'],
                  ['seq', 'upper_str', 'dbl_int'], ['seq', 'defer_ni', 'dbl_int'], ['seq', 'defer_nie', 'neg_float'],
-                 ['map', 'int'], ['map', 'str', 'float'], ['one', 'neg_float'], ['tup', 'dbl_int']]
+                 ['map', 'int'], ['map', 'str', 'float'], ['one', 'neg_float'], ['tup', 'dbl_int'],
+                 ['one', 'inc_int'], ['one', 'tag_str'], ['seq', 'inc_int', 'dbl_int'], ['seq', 'tag_str', 'inc_int']]
+CLASS_CUSTOMS = [None, None, ['one', 'dbl_int'], ['one', 'upper_str'], ['seq', 'neg_float', 'dbl_int'],
+                 ['one', 'inc_int'], ['one', 'tag_str'], ['seq', 'inc_int', 'upper_str']]
 FAULTY_SPECS = [['one', 'faulty_dbl_int'], ['seq', 'faulty_upper_str', 'dbl_int'], ['seq', 'defer_ni', 'faulty_dbl_int']]
 PANE_MODULES = ('pane.convert', 'pane.converters', 'pane.classes', 'pane.types', 'pane.util', 'pane.io',
                 'pane.annotations', 'pane.field', 'pane.errors', 'pane.addons.numpy')
@@ -135,6 +138,9 @@ def gen_knobs(rk, cls):
         'valid_p': rk.choice([0.6, 0.8, 0.95]),
         'gc_eager': rk.random() < 0.3,
     }
+    kn['hpair'] = None
+    if kn['mix'] == 'handler' or rk.random() < 0.25:
+        kn['hpair'] = rk.choice([['dbl_int', 'inc_int'], ['inc_int', 'dbl_int'], ['upper_str', 'tag_str'], ['tag_str', 'upper_str']])
     if cls == 'lru':
         kn['p_recycle'] = rk.choice([0.0, 0.0, 1.0])
     return kn
@@ -199,30 +205,51 @@ def gen_plan(seed: int, cls: str) -> dict:
     nroot = ninst = ncls = 0
     nops = ro.choice([4, 8, 12, 16, 24, 32, 40])
     weights = MIXES[knobs['mix']]
-    class_customs = [None, None, None, ['one', 'dbl_int'], ['one', 'upper_str'], ['seq', 'neg_float', 'dbl_int']]
+    class_customs = CLASS_CUSTOMS if knobs['mix'] == 'handler' else [None, None, None] + CLASS_CUSTOMS
     hspecs = list(HANDLER_SPECS)
+    if knobs.get('hpair'):
+        # a small pool of two handlers that claim the same type differently, used at every level
+        # (call-level, class-level, nested class): collisions between handler *roles* become likely
+        (h, k) = knobs['hpair']
+        hspecs = [None, ['one', h], ['one', k], ['seq', h, k], ['seq', k, h], ['one', h], ['one', k]]
+        class_customs = [None, ['one', h], ['one', k], ['one', h], ['one', k], ['seq', k, h]]
     if knobs['faults']:
-        hspecs += FAULTY_SPECS
+        hspecs += FAULTY_SPECS[:1] if knobs.get('hpair') else FAULTY_SPECS
 
     def probe(ast):
         return tg.enc(tg.sample_value(ast, sym, ro, valid_p=knobs['valid_p']))
 
+    prologue = ['defclass', 'defclass'] if knobs.get('hpair') else []
     while len(ops) < nops:
-        name = ro.choices(OPNAMES, weights)[0]
+        name = prologue.pop(0) if prologue else ro.choices(OPNAMES, weights)[0]
         if name == 'defclass':
             if ncls >= 5:
                 continue
-            if ro.random() < 0.25:
+            if ro.random() < 0.25 and not knobs.get('hpair'):
                 spec = tg.gen_enum_spec(ro, f'E{ncls}')
                 sym.enums[spec['name']] = True
                 sym.enum_specs[spec['name']] = spec
                 ops.append({'op': 'defenum', 'spec': spec})
             else:
                 spec = tg.gen_class_spec(ro, sym, f'C{ncls}', [k for k in kinds if k not in ('tl', 'dl')],
-                                         C10_SCALARS, custom_specs=class_customs)
+                                         C10_SCALARS, custom_specs=class_customs,
+                                         nest_p=0.8 if knobs.get('hpair') else 0.15,
+                                         generic_p=0.1 if knobs.get('hpair') else 0.25)
+                if knobs.get('hpair') and spec['fields'] and not spec.get('tv') and not spec.get('base'):
+                    f0 = spec['fields'][0]
+                    f0['t'] = ['s', 'int' if 'int' in knobs['hpair'][0] else 'str']
+                    f0.pop('d', None)
+                    f0.pop('df', None)
+                    if any(('d' in f or 'df' in f) for f in spec['fields'][1:]) is False:
+                        pass
                 sym.classes[spec['name']] = True
                 sym.class_specs[spec['name']] = spec
                 ops.append({'op': 'defclass', 'spec': spec})
+                if not spec.get('tv') and ro.random() < 0.7:
+                    rname = f'r{nroot}'
+                    nroot += 1
+                    roots[rname] = ['cls', spec['name']]
+                    ops.append({'op': 'build', 'name': rname, 't': ['cls', spec['name']]})
             ncls += 1
         elif name == 'build':
             ast = tg.gen_type(ro, sym, kinds, C10_SCALARS, max_depth=3)
@@ -306,7 +333,47 @@ def gen_plan(seed: int, cls: str) -> dict:
                 continue
             ops.append({'op': 'arm', 'handler': ro.choice(['faulty_dbl_int', 'faulty_upper_str']),
                         'k': ro.choice([1, 1, 2, 3]), 'exc': ro.choice(['RuntimeError', 'KeyError', 'ValueError'])})
+    if knobs.get('hpair'):
+        ops.extend(_role_collision_scenario(ro, sym, roots, knobs, hspecs, nroot))
     return {'prop': PROP, 'seed': seed, 'cls': cls, 'knobs': knobs, 'ops': ops}
+
+
+def _role_collision_scenario(ro, sym, roots, knobs, hspecs, nroot):
+    """
+    The same type reached through different handler *contexts*: a nested dataclass converted directly
+    with call-level handlers, and through an enclosing dataclass (whose class-level handlers arrive as
+    'class-local' ones), with the small conflicting handler pool at every level.
+    """
+    out = []
+    pairs = []
+    for (oname, ospec) in sym.class_specs.items():
+        if ospec.get('tv'):
+            continue
+        for f in ospec['fields']:
+            for (iname, ispec) in sym.class_specs.items():
+                if iname != oname and not ispec.get('tv') and tg.contains(f['t'], lambda a: a == ['cls', iname]):
+                    pairs.append((oname, iname))
+    if not pairs:
+        return out
+    (oname, iname) = ro.choice(sorted(set(pairs)))
+    names = {}
+    for cname in (oname, iname):
+        existing = [r for (r, a) in roots.items() if a == ['cls', cname]]
+        if existing:
+            names[cname] = existing[0]
+        else:
+            rname = f'r{nroot}'
+            nroot += 1
+            roots[rname] = ['cls', cname]
+            names[cname] = rname
+            out.append({'op': 'build', 'name': rname, 't': ['cls', cname]})
+    seq = [oname, iname] * 3
+    ro.shuffle(seq)
+    for cname in seq[:ro.choice([3, 4, 5, 6])]:
+        r = names[cname]
+        out.append({'op': 'convert', 'root': r, 'custom': ro.choice(hspecs),
+                    'data': tg.enc(tg.sample_value(roots[r], sym, ro, valid_p=1.0))})
+    return out
 
 
 # ---------------------------------------------------------------------------------------------
@@ -333,6 +400,9 @@ class Exec:
         self.world = tg.World()
         self.world.faulty = tg.make_faulty_pool()
         self.insts = {}
+        self.inst_src = {}
+        self.root_asts = {}
+        self.def_history = []
         self.violation = None
         self.nontrivial = False
         st = Streams(plan['seed'])
@@ -388,9 +458,15 @@ class Exec:
             if fresh:
                 s.bind_mc(saved)
 
-    def compare(self, what, fn, faulty_names=()):
-        """Outcome against the live memo must equal the outcome with memoisation bypassed."""
-        hits_before = self._hit_stats()
+    def compare(self, what, mk, deps=()):
+        """
+        mk(world, insts) -> callable performing the call on the objects of that world.
+        The outcome against the live memo must equal (1) the outcome of the same call on the same
+        objects with memoisation bypassed, and (2) the outcome on equivalent type objects rebuilt
+        from their definitions in a pristine world (which also exposes caches kept anywhere else:
+        per class, per field, per module).
+        """
+        fn = mk(self.world, self.insts)
         fired_before = sum(self.world.faulty[n].fired for n in self.world.faulty)
         real_fp, real_exc = self.side(fn, fresh=False)
         fired = sum(self.world.faulty[n].fired for n in self.world.faulty) - fired_before
@@ -409,12 +485,123 @@ class Exec:
             self.count('build_failed_then_retried')
             real_fp, real_exc = self.side(fn, fresh=False)
         ref_fp, _ = self.side(fn, fresh=True)
-        self._note_hits(hits_before)
         self.trace.add('cmp', what, h64(canon(order_free(real_fp))) % 10**9, h64(canon(order_free(ref_fp))) % 10**9)
         if real_fp != ref_fp:
             raise Violation('history_dependent',
                             f"{what}: with history {self._short(real_fp)} but freshly built {self._short(ref_fp)}")
+        fw = self.fresh_world(deps)
+        if fw is not None:
+            (w2, i2) = fw
+            try:
+                fn2 = mk(w2, i2)
+            except HarnessError:
+                raise
+            except Exception:
+                fn2 = None
+            if fn2 is not None:
+                fresh_fp, _ = self.side(fn2, fresh=True)
+                self.count('fresh_world_compared')
+                if real_fp != fresh_fp:
+                    raise Violation('history_dependent_hidden_state',
+                                    f"{what}: with history {self._short(real_fp)} but on freshly defined, equivalent "
+                                    f"type objects {self._short(fresh_fp)}")
+            w2.clear()
         return real_fp
+
+    def fresh_world(self, deps):
+        """Replay the definitional history (no conversions) that `deps` depend on into a pristine world."""
+        need_cls, need_roots, need_insts = set(), set(), set()
+
+        def walk_ast(ast):
+            k = ast[0]
+            if k in ('cls', 'gen'):
+                walk_cls(ast[1])
+            elif k == 'enum':
+                need_cls.add(ast[1])
+            elif k == 'ref':
+                walk_root(ast[1])
+            if k == 'dl':
+                for (_, a) in ast[1]:
+                    walk_ast(a)
+            elif k == 'ann':
+                walk_ast(ast[1])
+            elif k not in ('s', 'cls', 'enum', 'lit', 'ref', 'tv'):
+                for a in ast[{'gen': 2, 'tagged': 3}.get(k, 1):]:
+                    walk_ast(a)
+
+        def walk_cls(name):
+            if name in need_cls:
+                return
+            need_cls.add(name)
+            spec = self.world.class_specs.get(name)
+            if spec is None:
+                return
+            if spec.get('base') is not None:
+                walk_ast(spec['base'])
+            for f in spec['fields']:
+                walk_ast(f['t'])
+
+        def walk_root(name):
+            if name in need_roots:
+                return
+            need_roots.add(name)
+            ast = self.root_asts.get(name)
+            if ast is not None:
+                walk_ast(ast)
+
+        for d in deps:
+            if d[0] == 'root':
+                walk_root(d[1])
+            elif d[0] == 'ast':
+                walk_ast(d[1])
+            elif d[0] == 'inst':
+                need_insts.add(d[1])
+                src = self.inst_src.get(d[1])
+                if src is None:
+                    return None
+                walk_root(src[0])
+        w2 = tg.World()
+        w2.faulty = self.world.faulty
+        i2 = {}
+        try:
+            for op in self.def_history:
+                k = op['op']
+                if k == 'defclass' and op['spec']['name'] in need_cls:
+                    tg.define_class(op['spec'], w2)
+                elif k == 'defenum' and op['spec']['name'] in need_cls:
+                    tg.define_enum(op['spec'], w2)
+                elif k == 'build' and op['name'] in need_roots:
+                    w2.refs[op['name']] = tg.build(op['t'], w2)
+                elif k == 'subscript' and op['t'][1] in need_cls:
+                    if all(self._deps_ok(a, w2) for a in op['t'][2:]):
+                        w2.refs[op['name']] = tg.build(op['t'], w2)
+            for name in need_insts:
+                (root, data) = self.inst_src[name]
+                T2 = w2.refs[root]
+                saved = self.seams.current_mc
+                self.seams.bind_mc(self.seams.undecorated)
+                try:
+                    i2[name] = self.pane.from_data(data, T2)
+                finally:
+                    self.seams.bind_mc(saved)
+        except HarnessError:
+            raise
+        except Exception:
+            self.count('fresh_world_failed')
+            return None
+        return (w2, i2)
+
+    @staticmethod
+    def _deps_ok(ast, w):
+        def bad(a):
+            if a[0] in ('cls', 'gen'):
+                return a[1] not in w.classes
+            if a[0] == 'enum':
+                return a[1] not in w.enums
+            if a[0] == 'ref':
+                return a[1] not in w.refs
+            return False
+        return not tg.contains(ast, bad)
 
     @staticmethod
     def _short(fp):
@@ -459,6 +646,7 @@ class Exec:
     def op_defclass(self, i, op):
         try:
             tg.define_class(op['spec'], self.world)
+            self.def_history.append(op)
             self.trace.add('defclass', i, op['spec']['name'], 'ok')
         except HarnessError:
             raise
@@ -468,6 +656,7 @@ class Exec:
 
     def op_defenum(self, i, op):
         tg.define_enum(op['spec'], self.world)
+        self.def_history.append(op)
         self.trace.add('defenum', i, op['spec']['name'])
 
     def _build(self, ast):
@@ -499,20 +688,23 @@ class Exec:
             self.count('build_raised')
             return
         self.world.refs[op['name']] = obj
+        self.root_asts[op['name']] = op['t']
+        self.def_history.append(op)
         self.trace.add('build', i, op['name'])
 
-    def _convert_call(self, T, data, H):
-        pane = self.pane
-        return lambda: pane.from_data(data, T, custom=H)
-
     def op_convert(self, i, op):
-        T = self.world.refs.get(op['root'])
-        if T is None:
+        if op['root'] not in self.world.refs:
             self.trace.add('skip', i)
             return
         H = self.handlers(op['custom'])
         data = tg.dec(op['data'])
-        self.compare(f"from_data(<{op['root']}>, custom={op['custom']})", self._convert_call(T, data, H))
+        pane = self.pane
+        root = op['root']
+
+        def mk(world, insts):
+            T = world.refs[root]
+            return lambda: pane.from_data(data, T, custom=H)
+        self.compare(f"from_data(<{root}>, custom={op['custom']})", mk, deps=[('root', root)])
         self.count('op_convert')
 
     def op_inline(self, i, op):
@@ -525,58 +717,84 @@ class Exec:
             return
         H = self.handlers(op['custom'])
         data = tg.dec(op['data'])
+        pane = self.pane
+        real_world = self.world
+        ast = op['t']
+
+        def mk(world, insts):
+            T = holder['T'] if world is real_world else tg.build(ast, world)
+            return lambda: pane.from_data(data, T, custom=H)
         try:
-            self.compare(f"from_data(<inline {canon(op['t'])[:80]}>, custom={op['custom']})",
-                         self._convert_call(holder['T'], data, H))
+            self.compare(f"from_data(<inline {canon(op['t'])[:80]}>, custom={op['custom']})", mk, deps=[('ast', ast)])
         finally:
+            mk = None
             self._release(holder, 'T')
         self.count('op_inline')
 
     def op_lookup(self, i, op):
-        T = self.world.refs.get(op['root'])
-        if T is None:
+        if op['root'] not in self.world.refs:
             self.trace.add('skip', i)
             return
         H = self.handlers(op['custom'])
         conv_mod = self.seams.convert_mod
+        root = op['root']
 
-        def call():
-            mc = conv_mod.make_converter
-            conv = mc(T, conv_mod.ConverterHandlers.make(H))
-            return [type(conv).__name__, conv.expected(), conv.expected(True)]
-        self.compare(f"make_converter(<{op['root']}>, custom={op['custom']}).expected()", call)
+        def mk(world, insts):
+            T = world.refs[root]
+
+            def call():
+                mc = conv_mod.make_converter
+                conv = mc(T, conv_mod.ConverterHandlers.make(H))
+                return [type(conv).__name__, conv.expected(), conv.expected(True)]
+            return call
+        self.compare(f"make_converter(<{root}>, custom={op['custom']}).expected()", mk, deps=[('root', root)])
         self.count('op_lookup')
 
     def op_keep(self, i, op):
-        T = self.world.refs.get(op['root'])
-        if T is None:
+        if op['root'] not in self.world.refs:
             self.trace.add('skip', i)
             return
         data = tg.dec(op['data'])
-        fp = self.compare(f"from_data(<{op['root']}>) [keep]", self._convert_call(T, data, None))
+        pane = self.pane
+        root = op['root']
+
+        def mk(world, insts):
+            T = world.refs[root]
+            return lambda: pane.from_data(data, T)
+        fp = self.compare(f"from_data(<{root}>) [keep]", mk, deps=[('root', root)])
         if fp[0] == 'ok':
             try:
-                self.insts[op['as']] = self.pane.from_data(data, T)
+                self.insts[op['as']] = pane.from_data(data, self.world.refs[root])
+                self.inst_src[op['as']] = (root, data)
             except Exception:
                 pass
 
     def op_serialise(self, i, op):
         pane = self.pane
-        x = self.insts.get(op['inst'])
-        T = self.world.refs.get(op['root'])
         if op['inst'] not in self.insts:
             self.trace.add('skip', i)
             return
         H = self.handlers(op['custom'])
-        if op.get('infer') or T is None:
+        name, root = op['inst'], op['root']
+        have_T = root in self.world.refs
+        deps = [('inst', name)] + ([('root', root)] if have_T else [])
+        if op.get('infer') or not have_T:
             self.count('serialiser_inferred_from_runtime_type')
-            self.compare(f"into_data(<{op['inst']}>, custom={op['custom']})", lambda: pane.into_data(x, custom=H))
+
+            def mk(world, insts):
+                x = insts[name]
+                return lambda: pane.into_data(x, custom=H)
+            self.compare(f"into_data(<{name}>, custom={op['custom']})", mk, deps=deps)
         else:
-            self.compare(f"into_data(<{op['inst']}>, <{op['root']}>, custom={op['custom']})",
-                         lambda: pane.into_data(x, T, custom=H))
-        if op.get('roundtrip') and T is not None:
-            self.compare(f"convert(<{op['inst']}>, <{op['root']}>, custom={op['custom']})",
-                         lambda: pane.convert(x, T, custom=H))
+            def mk(world, insts):
+                x, T = insts[name], world.refs[root]
+                return lambda: pane.into_data(x, T, custom=H)
+            self.compare(f"into_data(<{name}>, <{root}>, custom={op['custom']})", mk, deps=deps)
+        if op.get('roundtrip') and have_T:
+            def mk2(world, insts):
+                x, T = insts[name], world.refs[root]
+                return lambda: pane.convert(x, T, custom=H)
+            self.compare(f"convert(<{name}>, <{root}>, custom={op['custom']})", mk2, deps=deps)
         self.count('op_serialise')
 
     def op_subscript(self, i, op):
@@ -603,6 +821,8 @@ class Exec:
             self.trace.add('subscript', i, 'raised', type(e).__name__)
             return
         self.world.refs[op['name']] = real_cls
+        self.root_asts[op['name']] = ast
+        self.def_history.append(op)
         self.count('op_subscript')
         if fresh_fn is None:
             self.count('subscript_memo_seam_missing')
@@ -630,7 +850,12 @@ class Exec:
             raise Violation('history_dependent', f"{ast[1]}[...] behaves differently from a freshly built subclass: "
                                                  f"{self._short(a)} vs {self._short(b)}")
         # and the ordinary history check on the memoised class
-        self.compare(f"from_data(<{op['name']}>) [subscript]", self._convert_call(real_cls, data, None))
+        rname = op['name']
+
+        def mk(world, insts):
+            T = world.refs[rname]
+            return lambda: pane.from_data(data, T)
+        self.compare(f"from_data(<{rname}>) [subscript]", mk, deps=[('root', rname)])
 
     def _release(self, holder, key):
         obj = holder[key]
@@ -828,10 +1053,21 @@ def execute_threads(plan, want_trace=False) -> dict:
                     util.__dict__.pop(n, None)
                 else:
                     util.__dict__[n] = v
-        lk = getattr(kc, '_lock', None)
-        if lk is not None and not isinstance(lk, SimRLock):
-            kc._lock = sched.make_lock()
+        swap_locks(kc)
         return kc
+
+    swapped = []
+
+    def swap_locks(obj):
+        """Any real lock held by the memo object becomes a simulated one for the duration of the run
+        (a real lock contended under the baton scheduler would block the thread that holds the baton)."""
+        import _thread
+        import threading
+        real_types = (_thread.LockType, type(threading.RLock()))
+        for name, val in list(vars(obj).items()) if hasattr(obj, '__dict__') else []:
+            if isinstance(val, real_types):
+                swapped.append((obj, name, val))
+                setattr(obj, name, sched.make_lock())
 
     world = tg.World()
     alloc = SimAlloc(st.rng('alloc'), knobs['p_recycle'], counters=counters)
@@ -886,6 +1122,7 @@ def execute_threads(plan, want_trace=False) -> dict:
                     s.bind_mc(kc)
             else:
                 kc = s.orig_mc
+                swap_locks(kc)
 
             def make_call(op, T):
                 H = tg.build_handlers(op['custom'])
@@ -981,6 +1218,8 @@ def execute_threads(plan, want_trace=False) -> dict:
             except Violation as v:
                 violation = {'kind': v.kind, 'detail': v.detail}
     finally:
+        for (obj, name, val) in swapped:
+            setattr(obj, name, val)
         alloc.active = False
         s.restore()
         world.clear()
@@ -1181,7 +1420,7 @@ ASSUMPTIONS = [
 def tier_config(tier):
     if tier == 'quick':
         return {'classes': [('norecycle', 1500), ('recycle', 2500), ('lru', 1000), ('threads', 2500)], 'chunk': 25, 'selftest_n': 120,
-                'sample': 1, 'hang_s': 600}
+                'sample': 1, 'hang_s': 240}
     return {'classes': [('norecycle', 3000), ('recycle', 5000), ('lru', 2000), ('threads', 6000)], 'chunk': 25, 'selftest_n': 600,
             'sample': 1, 'hang_s': 900, 'repeat': True, 'budget_s': 900}
 
